@@ -17,6 +17,8 @@ struct Ctx {
     operator: Address,
     dest: Address,
     retention: u64,
+    /// Some(outcome) for the configuration whose initial list repeats a set
+    dup_construct_accepted: Option<bool>,
 }
 
 #[derive(Clone, Hash)]
@@ -94,16 +96,33 @@ impl Scenario for C08 {
         let operator = env.register(Principal, ());
         let dest = env.register(Principal, ());
         let keys = Keys::new(3);
+        if n_init == 0 {
+            // an initial list that repeats a set, [S0, S1, S1]: construction must be refused; if a
+            // tree accepts it the retention window is off by the phantom epoch
+            let init = vec![pool(0).raw(&keys), pool(1).raw(&keys), pool(1).raw(&keys)];
+            let r = std::panic::catch_unwind(std::panic::AssertUnwindSafe(|| {
+                register_gateway(&w, None, &owner, &operator, &DOMAIN, 0, retention, &init)
+            }));
+            let accepted = r.is_ok();
+            let gw = r.unwrap_or_else(|_| dest.clone());
+            return (
+                Ctx { w, gw, keys, operator, dest, retention, dup_construct_accepted: Some(accepted) },
+                Model { epoch: 0, advances: 0 },
+            );
+        }
         let init: Vec<RawSet> = (0..n_init).map(|i| pool(i).raw(&keys)).collect();
         let gw = register_gateway(&w, None, &owner, &operator, &DOMAIN, 0, retention, &init);
         (
-            Ctx { w, gw, keys, operator, dest, retention },
+            Ctx { w, gw, keys, operator, dest, retention, dup_construct_accepted: None },
             Model { epoch: n_init, advances: 0 },
         )
     }
 
-    fn actions(&self, _ctx: &Ctx, m: &Model) -> Vec<Act> {
+    fn actions(&self, ctx: &Ctx, m: &Model) -> Vec<Act> {
         let mut v = vec![];
+        if ctx.dup_construct_accepted.is_some() {
+            return v;
+        }
         if m.epoch < self.max_epoch {
             for by in (1..=m.epoch).rev() {
                 v.push(Act::Rotate { by, bypass: false });
@@ -149,6 +168,12 @@ impl Scenario for C08 {
 
     /// every installed set, through every proof-consuming path, tried and rolled back
     fn probe(&self, ctx: &Ctx, m: &Model, out: &mut StepOut) {
+        if let Some(accepted) = ctx.dup_construct_accepted {
+            out.expect(!accepted, "construct.accepted-repeated-initial-set", || {
+                "construction with the initial list [S0, S1, S1] succeeded: the epoch counts a set that was never installed".into()
+            });
+            return;
+        }
         let w = &ctx.w;
         let env = &w.env;
         let snap = w.snap();
@@ -200,6 +225,10 @@ fn main() {
         for r in [0u64, 1, 2, 3, 7, u64::MAX] {
             for n in 1..=3usize {
                 cfgs.push((r, n));
+            }
+            if r == 1 {
+                // n = 0 encodes the repeated-initial-set configuration
+                cfgs.push((r, 0));
             }
         }
         let s = C08 { cfgs, max_epoch: if thorough { 10 } else { 7 }, max_adv: if thorough { 2 } else { 1 } };
